@@ -211,7 +211,30 @@ def _family(client_async: bool):
     return fam
 
 
+SWEEP_SINGLE = ['ok', 'err_listed', 'err_unlisted', 'exc_conn', 'exc_reset', 'exc_other', 'lost_conn']
+SWEEP_BATCH = ['ok', 'batch_err_listed', 'batch_err_unlisted', 'exc_conn', 'exc_reset', 'exc_other', 'err_listed']
+SWEEP_NOTIFY = ['ok', 'exc_conn', 'exc_reset', 'exc_other']
+
+
+def systematic(tier: str):
+    """Every outcome sequence of length n+2 over the property's outcome alphabet, for n up to 1 (quick) / 3 (thorough),
+    for single / batch / notification requests (forced by label; everything else seeded)."""
+    import itertools
+    max_n = 1 if tier == 'quick' else 3
+    for kind, alphabet in (('single', SWEEP_SINGLE), ('batch', SWEEP_BATCH), ('notify', SWEEP_NOTIFY)):
+        for n in range(max_n + 1):
+            for k, seq in enumerate(itertools.product(alphabet, repeat=n + 2)):
+                yield CS.forced_script(kind, n, list(seq), strategy_variant=k)
+
+
 FAMILIES = {'retry.sync': _family(False), 'retry.async': _family(True)}
+SYSTEMATIC = {'retry.sync': systematic, 'retry.async': systematic}
+RULE = ('systematic part: every per-attempt outcome sequence of length n+2 over {success, listed code, unlisted code, '
+        'batch-level listed / unlisted error, listed exception, subclass of a listed exception, unlisted exception, lost '
+        'reply} for n <= 1 (quick) / n <= 3 (thorough) x single / batch / notification, forced by label, the rest of the '
+        'scenario (backoff family and parameters, latencies, placement details, notation, server kind) seeded; random part: '
+        'seeded scenarios incl. per-request / disabled / replaced strategies; distinct = distinct history digest; '
+        'non-trivial = at least one fault fired')
 PLAN = {
     'quick': {'retry.sync': 60000, 'retry.async': 60000},
     'thorough': {'retry.sync': 40000, 'retry.async': 40000},
